@@ -19,7 +19,7 @@ def check_reusable(values: Iterable[base.RawModel]) -> None:
     seen = set[int]()
     for value in values:
         token_store = value.token_store
-        if id(value) in seen or token_store and (
+        if id(value) in seen or token_store is not None and (
                 value.first_token is not token_store.get_first() or
                 value.last_token is not token_store.get_last()):
             raise ValueError('Cannot reuse node. Consider making a copy.')
